@@ -17,6 +17,7 @@ import (
 	"math/rand"
 	"net"
 	"net/http"
+	"net/url"
 	"os"
 	"strings"
 	"sync"
@@ -685,7 +686,12 @@ func (api *API) addHandler(w http.ResponseWriter, r *http.Request) {
 		return
 	}
 
-	params, err := types.AddParamsFromQuery(r.URL.Query())
+	query, err := url.ParseQuery(r.URL.RawQuery)
+	if err != nil {
+		api.sendResponse(w, http.StatusBadRequest, err, nil)
+		return
+	}
+	params, err := types.AddParamsFromQuery(query)
 	if err != nil {
 		api.sendResponse(w, http.StatusBadRequest, err, nil)
 		return
@@ -1089,7 +1095,10 @@ func (api *API) parsePinPathOrError(w http.ResponseWriter, r *http.Request) *typ
 	}
 
 	pinPath := &types.PinPath{Path: path.String()}
-	err = pinPath.PinOptions.FromQuery(r.URL.Query())
+	query, err := url.ParseQuery(r.URL.RawQuery)
+	if err == nil {
+		err = pinPath.PinOptions.FromQuery(query)
+	}
 	if err != nil {
 		api.sendResponse(w, http.StatusBadRequest, err, nil)
 		return nil
@@ -1108,7 +1117,10 @@ func (api *API) parseCidOrError(w http.ResponseWriter, r *http.Request) *types.P
 	}
 
 	opts := types.PinOptions{}
-	err = opts.FromQuery(r.URL.Query())
+	query, err := url.ParseQuery(r.URL.RawQuery)
+	if err == nil {
+		err = opts.FromQuery(query)
+	}
 	if err != nil {
 		api.sendResponse(w, http.StatusBadRequest, err, nil)
 		return nil
